@@ -275,6 +275,38 @@ pub proof fn lemma_nomark_step(r0: Seq<Kind>, k: int, push: bool)
     lemma_count_marks_push(r0.subrange(0, r0.len() - k), Kind::Tuple);
 }
 
+// ---------------------------------------------------------------------------------------------
+// C04: wire format of ONE opcode (hand-written from the pickle format; argument classes from the
+// generated table ref_arg).  Text arguments are judged by the uninterpreted predicate text_ok, which
+// the assumed specs of the formatting shims establish (format!/escape facts are std assumptions).
+pub open spec fn le2(c: Seq<u8>, i: int) -> int { c[i] as int + 256 * (c[i + 1] as int) }
+pub open spec fn le4(c: Seq<u8>, i: int) -> int {
+    vstd::bytes::spec_u32_from_le_bytes(seq![c[i], c[i + 1], c[i + 2], c[i + 3]]) as int
+}
+pub open spec fn le8(c: Seq<u8>, i: int) -> int {
+    vstd::bytes::spec_u64_from_le_bytes(seq![c[i], c[i + 1], c[i + 2], c[i + 3], c[i + 4], c[i + 5], c[i + 6], c[i + 7]]) as int
+}
+/// t is a complete, well-formed newline-terminated argument of the given text class
+pub uninterp spec fn text_ok(cls: ArgClass, t: Seq<u8>) -> bool;
+
+pub open spec fn enc_ok(op: OpcodeKind, c: Seq<u8>) -> bool {
+    &&& c.len() >= 1 && c[0] == ref_code(op) as u8
+    &&& match ref_arg(op) {
+        ArgClass::NoArg => c.len() == 1,
+        ArgClass::U1 => c.len() == 2 && (op == OpcodeKind::Ext1 ==> c[1] >= 1),
+        ArgClass::U2 => c.len() == 3 && (op == OpcodeKind::Ext2 ==> le2(c, 1) >= 1),
+        ArgClass::I4 => c.len() == 5 && (op == OpcodeKind::Ext4 ==> 1 <= le4(c, 1) < 0x8000_0000),
+        ArgClass::U4 => c.len() == 5,
+        ArgClass::U8 => c.len() == 9,
+        ArgClass::F8 => c.len() == 9,
+        ArgClass::Counted1 => c.len() >= 2 && c.len() == 2 + c[1],
+        ArgClass::Counted4 => c.len() >= 5 && c.len() == 5 + le4(c, 1),
+        ArgClass::Counted4S => c.len() >= 5 && c.len() == 5 + le4(c, 1) && le4(c, 1) < 0x8000_0000,
+        ArgClass::Counted8 => c.len() >= 9 && c.len() == 9 + le8(c, 1),
+        cls => c.len() >= 2 && text_ok(cls, c.subrange(1, c.len() as int)),
+    }
+}
+
 /// concatenation of the per-opcode byte chunks of the body
 pub open spec fn flat(c: Seq<Seq<u8>>) -> Seq<u8>
     decreases c.len()
